@@ -1,4 +1,5 @@
 import CattrsModel.Lemmas.ModesAgree
+import CattrsModel.Lemmas.UnfoldLeaf
 /-!
 # C04 — `detailed_validation` changes only error reporting, never acceptance or results
 
@@ -7,6 +8,8 @@ Property theorems only.  `convStructure w cfg T o` is `converter.structure(o, T)
 `stF` (first error wins); everything else is shared.  NamedTuple positions (`Ty.nt`) run the heterogeneous-tuple
 hook over the field types and then `cl(*res)`: the fast template checks the arity first and raises a bare error,
 the detailed one structures the zipped items and appends an un-indexed leaf to the iterable group.
+`str` / `bytes` payloads at iterating positions are iterated into 1-character strings / ints by both templates
+(`stLF` / `stLD`, agreement: `Leaf.modes_agree`).
 -/
 namespace CattrsModel
 
@@ -82,6 +85,17 @@ example : stF c04WorldU c04CfgU (.union [0, 2] false) (.dict [(.str "a", .int 1)
   constructor
   · rw [stF_union, hp]
   · rw [C04_error_iff, stF_union, hp]
+/-- a `str` payload at a collection position is iterated by both templates: `structure("1x", list[int])` raises in both
+modes (the detailed one reports index 1), `structure("12", list[int]) == [1, 2]` in both -/
+example : stF c04WorldU c04CfgU (.coll .list .int) (.str "1x") = Option.none ∧
+    stD c04WorldU c04CfgU (.coll .list .int) (.str "1x") = .error (.ive [(some (.int 1), .leaf)]) := by
+  constructor
+  · simp [stF, iterItems, Leaf.stLF_coll, leafItems, stLFL, stLF, Obj.toInt?, parseInt?, digitsVal, isDigit]
+  · simp [stD, iterItems, Leaf.stLD_coll, leafItems, stLDL, stLD, Obj.toInt?, SK.structTo, CK.isSet, parseInt?,
+      digitsVal, isDigit, Ty.isAny]
+example : stD c04WorldU c04CfgU (.coll .list .int) (.str "12") = .ok (.coll .list [.int 1, .int 2]) := by
+  simp [stD, iterItems, Leaf.stLD_coll, leafItems, stLDL, stLD, Obj.toInt?, SK.structTo, CK.isSet, parseInt?,
+    digitsVal, isDigit, Ty.isAny, mkColl, hashable]
 end Examples
 
 end CattrsModel
